@@ -93,7 +93,7 @@ static void closed_call_check(int i, const char *what, int failed, PError *err) 
 	if (m->decoy >= 0 && fcntl(m->decoy, F_GETFD) < 0) viol("closed-touched-descriptor", "%s on a closed socket closed an unrelated descriptor that reuses the old number", what);
 }
 #define RESET_T() do { w_t_fdcalls = 0; w_t_polls = 0; w_t_calls = 0; } while (0)
-static long long st_timed_eintr, st_timed_late_data;
+static long long st_timed_eintr, st_timed_late_data, st_accept_eagain;
 /* a timed wait interrupted by a signal must still not end before T: inject EINTR into the first poll() of some timed calls */
 static void maybe_interrupt_poll(MS *m, vh_rng *r) { if (m->blocking && m->timeout > 0 && vh_chance(r, 35)) { w_plan(W_POLL, WM_AT, w_calls(W_POLL) + 1, 1 + (int)vh_below(r, 2), WK_EINTR, vh_next(r)); st_timed_eintr++; } }
 
@@ -163,7 +163,10 @@ static void do_op(int i, vh_rng *r) {
 		}
 		for (j = 0; j < MAXS; j++) if (!w[j].used) { k = j; break; }
 		if (k < 0) { st_skipped++; break; }
-		RESET_T(); ac = p_socket_accept(s, &err); st_accepts++;
+		/* the connection the readiness report was about may be gone when accept() runs (another waiter took it): the kernel then says EAGAIN, and a
+		 * blocking socket has to go on waiting instead of reporting would-block; here a connection IS pending, so the call must succeed */
+		if (m->blocking && vh_chance(r, 30)) { w_plan(W_ACCEPT, WM_AT, w_calls(W_ACCEPT) + 1, 1, WK_EAGAIN, vh_next(r)); st_accept_eagain++; }
+		RESET_T(); ac = p_socket_accept(s, &err); st_accepts++; w_plan(W_ACCEPT, WM_OFF, 0, 1, 0, 0);
 		if (!ac) { if (m->blocking) viol("accept-failed", "accept with %d established peers failed: code %d", m->pending, err ? p_error_get_code(err) : 0); else st_skipped++; check_getters(i, cur); break; }
 		{ MS *n = &w[k]; int real = 0; socklen_t l = sizeof real; int pi, pos = 0, q; PSocketAddress *ra = p_socket_get_remote_address(ac, NULL); int rport = ra ? p_socket_address_get_port(ra) : -1;
 		  /* identify the real peer by its port (the kernel need not hand connections out in connect() order) */
